@@ -30,6 +30,9 @@ pub enum FT {
     Generic,
     OpaqueSkip,
     PlainSkip,
+    /// converted fields carrying a forwarded attribute: #[convert_save_load_attr(serde(rename = ".."))]
+    EntityRenamed,
+    U8Renamed,
 }
 
 #[derive(Clone, Debug, Serialize, Deserialize, Hash, PartialEq, Eq)]
@@ -87,6 +90,8 @@ fn ft() -> impl Strategy<Value = FT> {
         2 => Just(FT::Generic),
         1 => Just(FT::OpaqueSkip),
         1 => Just(FT::PlainSkip),
+        2 => Just(FT::EntityRenamed),
+        1 => Just(FT::U8Renamed),
     ]
 }
 
@@ -167,6 +172,9 @@ fn normalise(p: &Program) -> Vec<NType> {
                 // a skipped non-serialisable field is only emitted in named containers
                 // (the shape used in the crate's own tests)
                 FT::OpaqueSkip if !named => FT::PlainSkip,
+                // serde(rename) only means something on named fields
+                FT::EntityRenamed if !named => FT::Entity,
+                FT::U8Renamed if !named => FT::U8,
                 other => *other,
             }
         };
@@ -219,7 +227,7 @@ fn normalise(p: &Program) -> Vec<NType> {
 }
 
 fn nontrivial(t: &NType) -> bool {
-    let mix = |fs: &Vec<FT>| fs.len() >= 2 && fs.iter().any(|f| matches!(f, FT::Entity | FT::Generic)) && fs.iter().any(|f| !matches!(f, FT::Entity | FT::Generic));
+    let mix = |fs: &Vec<FT>| fs.len() >= 2 && fs.iter().any(|f| matches!(f, FT::Entity | FT::EntityRenamed | FT::Generic)) && fs.iter().any(|f| !matches!(f, FT::Entity | FT::EntityRenamed | FT::Generic));
     match &t.shape {
         Shape::Named(fs) | Shape::Tuple(fs) => mix(fs),
         Shape::Enum(vs) => {
@@ -234,8 +242,8 @@ fn nontrivial(t: &NType) -> bool {
 
 fn ty_name(f: &FT, garg: &str) -> String {
     match f {
-        FT::Entity => "Entity".into(),
-        FT::U8 => "u8".into(),
+        FT::Entity | FT::EntityRenamed => "Entity".into(),
+        FT::U8 | FT::U8Renamed => "u8".into(),
         FT::I64 => "i64".into(),
         FT::Str => "String".into(),
         FT::OptU16 => "Option<u16>".into(),
@@ -251,6 +259,7 @@ fn ty_name(f: &FT, garg: &str) -> String {
 
 fn attrs(f: &FT) -> &'static str {
     match f {
+        FT::EntityRenamed | FT::U8Renamed => "#[convert_save_load_attr(serde(rename = \"RENAMED\"))] ",
         FT::OpaqueSkip => "#[convert_save_load_skip_convert] #[convert_save_load_attr(serde(skip, default))] ",
         FT::PlainSkip => "#[convert_save_load_skip_convert] ",
         _ => "",
@@ -260,8 +269,8 @@ fn attrs(f: &FT) -> &'static str {
 /// expression building a value of field type `f`; `g` = 0 entity instantiation, 1 u32 instantiation
 fn make_expr(f: &FT, g: u8) -> String {
     match f {
-        FT::Entity => "ents[(r.next() % ents.len() as u64) as usize]".into(),
-        FT::U8 => "(r.next() % 256) as u8".into(),
+        FT::Entity | FT::EntityRenamed => "ents[(r.next() % ents.len() as u64) as usize]".into(),
+        FT::U8 | FT::U8Renamed => "(r.next() % 256) as u8".into(),
         FT::I64 => "(r.next() % (1u64 << 41)) as i64 - (1i64 << 40)".into(),
         FT::Str => "format!(\"s{}\", r.next() % 1000)".into(),
         FT::OptU16 => "if r.next() % 3 == 0 { None } else { Some((r.next() % 65536) as u16) }".into(),
@@ -284,8 +293,8 @@ fn make_expr(f: &FT, g: u8) -> String {
 /// JSON expression for the field bound to `x` (a reference); None = omitted
 fn ref_expr(f: &FT, x: &str, g: u8) -> Option<String> {
     Some(match f {
-        FT::Entity => format!("m(*{})", x),
-        FT::U8 | FT::I64 | FT::PlainSkip => format!("json!(*{})", x),
+        FT::Entity | FT::EntityRenamed => format!("m(*{})", x),
+        FT::U8 | FT::U8Renamed | FT::I64 | FT::PlainSkip => format!("json!(*{})", x),
         FT::Str | FT::OptU16 | FT::VecU32 | FT::ArrU8 => format!("json!({})", x),
         FT::TupU8Bool => format!("json!([{x}.0, {x}.1])", x = x),
         FT::Derived(j) => format!("ref_T{}({}, m)", j, x),
@@ -302,7 +311,7 @@ fn ref_expr(f: &FT, x: &str, g: u8) -> Option<String> {
 
 fn perm_expr(f: &FT, x: &str, g: u8) -> String {
     match f {
-        FT::Entity => format!("pi(*{})", x),
+        FT::Entity | FT::EntityRenamed => format!("pi(*{})", x),
         FT::Derived(j) => format!("perm_T{}({}, pi)", j, x),
         FT::Generic if g == 0 => format!("pi(*{})", x),
         FT::OpaqueSkip => "Opaque::default()".into(),
@@ -317,7 +326,7 @@ fn print_type(out: &mut String, i: usize, t: &NType) {
         Shape::Named(fs) => {
             let _ = writeln!(out, "pub struct T{}{} {{", i, gdecl);
             for (k, f) in fs.iter().enumerate() {
-                let _ = writeln!(out, "    {}pub f{}: {},", attrs(f), k, ty_name(f, "E"));
+                let _ = writeln!(out, "    {}pub f{}: {},", attrs(f).replace("RENAMED", &format!("r{}", k)), k, ty_name(f, "E"));
             }
             let _ = writeln!(out, "}}");
         }
@@ -337,7 +346,7 @@ fn print_type(out: &mut String, i: usize, t: &NType) {
                         let _ = writeln!(out, "    V{}({}),", k, body.join(", "));
                     }
                     Var::Named(fs) => {
-                        let body: Vec<String> = fs.iter().enumerate().map(|(n, f)| format!("{}f{}: {}", attrs(f), n, ty_name(f, "E"))).collect();
+                        let body: Vec<String> = fs.iter().enumerate().map(|(n, f)| format!("{}f{}: {}", attrs(f).replace("RENAMED", &format!("r{}", n)), n, ty_name(f, "E"))).collect();
                         let _ = writeln!(out, "    V{} {{ {} }},", k, body.join(", "));
                     }
                 }
@@ -388,7 +397,14 @@ fn print_type(out: &mut String, i: usize, t: &NType) {
         // reference JSON
         let _ = writeln!(out, "#[allow(unused_variables)]\nfn ref_{}(v: &{}, m: &dyn Fn(Entity) -> Value) -> Value {{", tag, ty);
         let obj = |fs: &Vec<FT>, bind: &dyn Fn(usize) -> String| -> String {
-            let parts: Vec<String> = fs.iter().enumerate().filter_map(|(k, f)| ref_expr(f, &bind(k), g).map(|e| format!("(\"f{}\".to_string(), {})", k, e))).collect();
+            let parts: Vec<String> = fs
+                .iter()
+                .enumerate()
+                .filter_map(|(k, f)| {
+                    let key = if matches!(f, FT::EntityRenamed | FT::U8Renamed) { format!("r{}", k) } else { format!("f{}", k) };
+                    ref_expr(f, &bind(k), g).map(|e| format!("(\"{}\".to_string(), {})", key, e))
+                })
+                .collect();
             format!("Value::Object(vec![{}].into_iter().collect())", parts.join(", "))
         };
         let seq = |fs: &Vec<FT>, bind: &dyn Fn(usize) -> String| -> String {
